@@ -126,11 +126,19 @@ static void stop_before_finalize()
     L = Ledger{};
     g = &L;
     int depth = 1 + pmc_choose(2, 0);
+    int entry = pmc_choose(2, 0);    // 1: started with an entry function that returns 7 and does not finalize
     pmc_on_stuck(on_stuck);
     rt::config c;
     c.workers = 2;
     g_phase = 1;
-    rt::start(c);
+    if (!entry) rt::start(c);
+    else
+    {
+        static const char* argv[] = {"harness", nullptr};
+        pika::init_params ip;
+        ip.cfg = {"pika.os_threads=2", "pika.max_idle_loop_count=4", "pika.max_busy_loop_count=4", "pika.bind=none", "pika.install_signal_handlers=0", "pika.diagnostics_on_terminate=0"};
+        pika::start([](int, char**) -> int { return 7; }, 1, argv, ip);
+    }
     std::thread side([depth] {
         submit_chain(0, depth);
         submit_chain(4, 4 + depth);
@@ -142,10 +150,10 @@ static void stop_before_finalize()
     PMC_ASSERT(L.finalize_called, "stop-before-finalize", "stop() returned although finalize() had not been called");
     for (int i = 0; i <= depth; ++i)
         PMC_ASSERT(L.left[i] == 1 && L.left[4 + i] == 1, "stop-returned-early", "stop() returned but task %d/%d submitted before finalize() did not run to completion (%d, %d)", i, 4 + i, L.left[i], L.left[4 + i]);
-    PMC_ASSERT(r == 0, "stop-result", "stop() returned %d", r);
+    PMC_ASSERT(r == (entry ? 7 : 0), "stop-result", "stop() returned %d, the entry function's result is %d", r, entry ? 7 : 0);
     g_phase = 3;
     side.join();
-    pmc_outcome("depth=%d", depth);
+    pmc_outcome("depth=%d entry=%d", depth, entry);
 }
 
 // 3: suspend()/resume(): no body executes while suspended, queued work runs after resume
